@@ -296,11 +296,17 @@ class RefDec:
         n = len(t.elems)
         if n == 0:
             return self.fault("type", where + ":empty")
-        ws = [0x09, 0x0A, 0x0B, 0x0C, 0x0D, 0x20]
+        # "whitespace" = Unicode White_Space (what a text string's trim removes), as UTF-8 sequences;
+        # a sequence at the start / end of well-formed UTF-8 is a whole character (every sequence
+        # below begins with a lead byte)
+        ws = [[b] for b in (0x09, 0x0A, 0x0B, 0x0C, 0x0D, 0x20)] + [[0xC2, 0x85], [0xC2, 0xA0], [0xE1, 0x9A, 0x80]] + \
+            [[0xE2, 0x80, x] for x in list(range(0x80, 0x8B)) + [0xA8, 0xA9, 0xAF]] + [[0xE2, 0x81, 0x9F], [0xE3, 0x80, 0x80]]
 
-        def is_ws(b):
-            return z3.Or([bv(b) == w for w in ws])
-        if self.br(z3.Or(is_ws(t.elems[0]), is_ws(t.elems[-1])), "ct-ws"):
+        def seq_at(i, seq):
+            return z3.And([bv(t.elems[i + j]) == seq[j] for j in range(len(seq))])
+        lead = z3.Or([seq_at(0, q) for q in ws if len(q) <= n])
+        trail = z3.Or([seq_at(n - len(q), q) for q in ws if len(q) <= n])
+        if self.br(z3.Or(lead, trail), "ct-ws"):
             return self.fault("type", where + ":whitespace")
         cnt = z3.Sum([z3.If(bv(b) == 0x2F, 1, 0) for b in t.elems])
         if not self.br(cnt == 1, "ct-one-slash"):
